@@ -63,8 +63,8 @@ Definition run_speed (fixed : bool) (speed_hi speed duplex : Z) : jv :=
 Definition jv_nrow (r : nrow) : jv :=
   JL [JB (n_name r); JZ (n_fam r); JB (n_addr r); jopt JB (n_mask r); jopt JB (n_bcast r); jopt JB (n_ptp r)].
 (* fed interface list: model answer of psutil.net_if_addrs() (rows in psutil's order) and the demanded rows *)
-Definition run_ifaddrs (l : list ifa) : jv :=
-  JL [ jv_outcome (fun rows => JL (map jv_nrow (py_net_if_addrs rows))) (c_net_if_addrs (repeat 255 NI_MAXHOST) l);
+Definition run_ifaddrs (fsnames : bool) (l : list ifa) : jv :=
+  JL [ jv_outcome (fun rows => JL (map jv_nrow (py_net_if_addrs rows))) (c_net_if_addrs_gen fsnames (repeat 255 NI_MAXHOST) l);
        (if forallb wf_ifa l then JC "Val" [JL (map jv_nrow (map pad_row (spec_if_rows l)))] else jnone) ].
 
 (* a sequence of entry-point calls made in one process *)
@@ -89,3 +89,11 @@ Definition run_threads (n : Z) (sched : list nat) : jv :=
   let files := map thr_file (seq 0 (Z.to_nat n)) in
   JL [ jbool (thr_consistent_b files (run_sched step_gil sched (th_init files)));
        jbool (thr_consistent_b files (run_sched step_nogil ([0; 1; 0; 1]%nat ++ sched) (th_init files))) ].
+
+(* interface names: what net_if_addrs() shows for a node called [name] and what net_if_stats() hands to the ioctls for the
+   str [cps] the Python layer read from /proc/net/dev *)
+Definition run_ifname (fsnames : bool) (name : bytes) (cps : list Z) : jv :=
+  JL [ jv_outcome (fun rows => JL (map (fun r => JB (n_name r)) rows))
+         (c_net_if_addrs_gen fsnames (repeat 255 NI_MAXHOST)
+            [{| ifa_name := name; ifa_flags := 73; ifa_addr := Some (SaLL [0; 0; 0; 0; 0; 0]); ifa_mask := None; ifa_baddr := None |}]);
+       jv_outcome (fun l => JL (map JB l)) (net_if_stats_names fsnames [cps]) ].
